@@ -530,4 +530,60 @@ theorem known_C14_global_bit_alias (c : Cfg) (j i : Info) (v : Nat) (g : Glyph) 
 
 example : genCfg.globalShift < 32 ∧ (⟨1, 1, 1, 1, 1, 0, 0⟩ : Info).flags &&& genCfg.fGlobal ≠ 0 := by decide
 
+/-- finding `shared-alternate-lookup` (alternate_set.rs: "This breaks badly if two features enabled this lookup together"):
+    when an ALTERNATE lookup is referenced by two features that own the bit fields `[sA, sA+bA)` and `[sB, sB+bB)` (A below
+    B), its mask is the union of both (`C14_shared_lookup_mask_union`) and the alternate index is read from that union
+    shifted by the LOWER field's shift: on a glyph where only B is on, with value `v`, the index is `v · 2^(sB-sA)`, not
+    `v` — `salt[0:1]=1, ss01[2:3]=1` on one alternate lookup picks alternate 2 at cluster 2.  Same in HarfBuzz. -/
+theorem known_C14_shared_alternate_index (sA bA sB bB v : Nat) (hA : 1 ≤ bA) (hAB : sA + bA ≤ sB) (hB : sB + bB ≤ 32)
+    (hv : v < 2 ^ bB) (h0 : v ≠ 0) :
+    altIndex (maskRange sA bA ||| maskRange sB bB) (v <<< sB) = v <<< (sB - sA) ∧
+    altIndex (maskRange sA bA ||| maskRange sB bB) (v <<< sB) ≠ v := by
+  have hlm : maskRange sA bA ||| maskRange sB bB < W32 := by
+    have h1 : maskRange sA bA < 2 ^ 32 := maskRange_lt sA bA 32 (by omega)
+    have h2 : maskRange sB bB < 2 ^ 32 := maskRange_lt sB bB 32 hB
+    exact Nat.or_lt_two_pow h1 h2
+  have hne : (maskRange sA bA ||| maskRange sB bB) % W32 ≠ 0 := by
+    rw [Nat.mod_eq_of_lt hlm]
+    intro hz
+    have : (maskRange sA bA ||| maskRange sB bB).testBit sA = true := by
+      rw [Nat.testBit_or, testBit_maskRange]; simp; omega
+    rw [hz, Nat.zero_testBit] at this
+    exact absurd this (by decide)
+  have htz : trailingZeros (maskRange sA bA ||| maskRange sB bB) = sA := by
+    unfold trailingZeros
+    simp only [hne, if_false]
+    apply trailingZeros_go_lowest sA 32 _ (by omega)
+    · intro k hk
+      rw [Nat.testBit_or, testBit_maskRange, testBit_maskRange]
+      have h1 : ¬ sA ≤ k := by omega
+      have h2 : ¬ sB ≤ k := by omega
+      simp [h1, h2]
+    · rw [Nat.testBit_or, testBit_maskRange]; simp; omega
+  have hidx : altIndex (maskRange sA bA ||| maskRange sB bB) (v <<< sB) = v <<< (sB - sA) := by
+    unfold altIndex
+    rw [htz]
+    apply Nat.eq_of_testBit_eq
+    intro j
+    simp only [Nat.testBit_shiftRight, Nat.testBit_and, Nat.testBit_or, testBit_maskRange, Nat.testBit_shiftLeft]
+    by_cases h1 : sB ≤ sA + j
+    · have e : sA + j - sB = j - (sB - sA) := by omega
+      have h2 : sB - sA ≤ j := by omega
+      by_cases h3 : sA + j < sB + bB
+      · simp [h1, h2, h3, e]
+      · have : v.testBit (j - (sB - sA)) = false := testBit_false_of_lt hv (by omega)
+        simp [h1, h2, e, this]
+    · have h2 : ¬ sB - sA ≤ j := by omega
+      simp [h1, h2]
+  refine ⟨hidx, ?_⟩
+  rw [hidx, Nat.shiftLeft_eq]
+  have hp : 2 ≤ 2 ^ (sB - sA) := by
+    have : 2 ^ 1 ≤ 2 ^ (sB - sA) := Nat.pow_le_pow_right (by decide) (by omega)
+    simpa using this
+  intro he
+  have : v * 2 ≤ v * 2 ^ (sB - sA) := Nat.mul_le_mul_left v hp
+  omega
+
+example : (1 : Nat) ≤ 1 ∧ 4 + 1 ≤ 5 ∧ 5 + 1 ≤ 32 ∧ (1 : Nat) < 2 ^ 1 ∧ (1 : Nat) ≠ 0 := by decide
+
 end RbModel.Props.C14
